@@ -135,8 +135,12 @@ class Registry:
 
     def contract_for(self, qual, recv_cls=None):
         cands = self.contracts.get(qual, [])
+        if recv_cls is not None:
+            for c in cands:                     # a receiver-specific contract takes precedence
+                if c.receiver is not None and recv_cls in _as_tuple(c.receiver):
+                    return c
         for c in cands:
-            if c.receiver is None or recv_cls is None or recv_cls in _as_tuple(c.receiver):
+            if c.receiver is None or recv_cls is None:
                 return c
         return None
 
